@@ -189,11 +189,18 @@ func checkMain(args []string) {
 			lines = append(lines, fmt.Sprintf("UNDECIDED function=%s reason=%s (%s)", rep.Key, rep.Status, rep.Reason))
 		}
 	}
+	failedFn := map[string]bool{}
+	for _, o := range all {
+		if !o.Canary && o.Status != "unsat" {
+			failedFn[o.Func] = true
+		}
+	}
 	for _, o := range all {
 		names[o.Name] = true
 		if o.Canary {
 			nCanary++
-			if o.Status == "unsat" {
+			if o.Status == "unsat" && !failedFn[o.Func] {
+				// (code after a failed assertion is vacuously unreachable in the encoding: not an engine fault)
 				engineError("vacuity: reachability canary %s is unsat (contradictory assumptions)", o.Name)
 			}
 			if o.Status == "sat" {
